@@ -46,7 +46,10 @@ Print Assumptions C03_map_call_forks.
 (* a disabled call executes no job at all *)
 Theorem C03_disabled_never_runs : forall P Orc pf f E path c,
   is_disabled P pf E c = true -> snd (eval_call P Orc pf (S f) E path c) = [].
-Proof. intros. eapply disabled_gives_null. eassumption. Qed.
+Proof.
+  intros P Orc pf f E path c H.
+  exact (proj1 (proj2 (disabled_gives_null P Orc pf f E path c H))).
+Qed.
 Print Assumptions C03_disabled_never_runs.
 
 (* mapping over an empty or null collection executes no job at all *)
